@@ -360,19 +360,18 @@ def hstepWith (withBackends : Bool) (s : HStore p) : HOp p → HStore p
   | .clear => s.clear
   | .update => s.updateWith withBackends
 
-/-- the guard of the code under verification: `false` = `Maps != nil && !hosts.Changed()` (the
-tree as it is), `true` = with `&& !rootRedirectBackendChanged()` (proposed repair, finding
-`stale-frontend-map-entry`).  Single switch: the driver and `hstep` follow it. -/
-def guardWithBackends : Bool := false
+/-- the current code: the guard looks at the hosts and at the backends of root-redirect hosts -/
+def hstep (s : HStore p) (op : HOp p) : HStore p := hstepWith true s op
 
-def hstep (s : HStore p) (op : HOp p) : HStore p := hstepWith guardWithBackends s op
+/-- the guard before the repair (historical witness, finding `stale-frontend-map-entry`) -/
+def hstepOld (s : HStore p) (op : HOp p) : HStore p := hstepWith false s op
 
 def hokOp (s : HStore p) : HOp p → Bool
   | .removeAll xs => xs.all fun x => (s.add x).isNone
   | _ => true
 
-def hallOkWith (wb : Bool) : HStore p → List (HOp p) → Bool
+def hallOk : HStore p → List (HOp p) → Bool
   | _, [] => true
-  | s, op :: ops => hokOp s op && hallOkWith wb (hstepWith wb s op) ops
+  | s, op :: ops => hokOp s op && hallOk (hstep s op) ops
 
 end HapVerif.C05
